@@ -567,7 +567,10 @@ package keeper
 //@ ensures[C14.dep]      depFails(0) || depFails(1) ==> err != nil
 //@ ensures[C05.denom]    err == nil ==> foldEq(mintingDenom(), burnToken) && amount.v > 0
 //@ ensures[C07.stamp C06.nonce C05.nonce C14.nonce C08.nonce] err == nil ==> nonce == nextNonceOf(old(st)) && st.nextNonce.set && st.nextNonce.val == nonce + 1
-//@ emits[C06.deposit C05.body C07.emitted C14.emitted C12.emitted C08.emitted] [MessageSent{Message: depositMessage(old(st), from, amount, destinationDomain, mintRecipient, burnToken, destinationCaller)}, DepositForBurn{Nonce: nextNonceOf(old(st)), BurnToken: hexenc(keccak(burnToken)), Amount: amount, Depositor: from, MintRecipient: mintRecipient, DestinationDomain: destinationDomain, DestinationTokenMessenger: old(st.messengers.addr[destinationDomain]), DestinationCaller: destinationCaller}]
+//@ emits[C06.deposit C05.body C07.emitted C14.emitted C12.emitted C08.emitted] [MessageSent{Message: depositMessage(old(st), from, amount, destinationDomain, mintRecipient, burnToken, destinationCaller)}, DepositForBurn{Nonce: nextNonceOf(old(st)), BurnToken: hexenc(keccak(lower(burnToken))), Amount: amount, Depositor: from, MintRecipient: mintRecipient, DestinationDomain: destinationDomain, DestinationTokenMessenger: old(st.messengers.addr[destinationDomain]), DestinationCaller: destinationCaller}]
+// C06, last sentence: the DepositForBurn event names the burn token the message body carries, keccak of the
+// lower-cased denom (burnBody above), so a later replacement's event, which only has the body, names the same one.
+//@ ensures[C06.token] err == nil ==> events[1].BurnToken == hexenc(keccak(lower(burnToken)))
 //@ calls[C05.backed C14.backed C04.others C08.backed] [BankSend{From: accBytes(from), Module: "cctp", Denom: burnToken, Amount: amount.v}, Burn{From: bech32(moduleAddr), Denom: burnToken, Amount: amount}]
 //@ modifies[C15.frame C11.frame C12.frame C13.frame C02.frame C07.frame C05.frame C06.frame C08.frame C14.frame] st.nextNonce
 
@@ -578,7 +581,7 @@ package keeper
 //@ ensures[C14.dep]      depFails(0) || depFails(1) ==> err != nil
 //@ ensures[C05.denom]    err == nil ==> foldEq(mintingDenom(), msg.BurnToken) && msg.Amount.v > 0
 //@ ensures[C07.stamp C06.nonce] err == nil ==> resp.Nonce == nextNonceOf(old(st)) && st.nextNonce.set && st.nextNonce.val == resp.Nonce + 1
-//@ emits[C06.deposit C05.body C07.emitted C14.emitted] [MessageSent{Message: depositMessage(old(st), msg.From, msg.Amount, msg.DestinationDomain, msg.MintRecipient, msg.BurnToken, "")}, DepositForBurn{Nonce: nextNonceOf(old(st)), BurnToken: hexenc(keccak(msg.BurnToken)), Amount: msg.Amount, Depositor: msg.From, MintRecipient: msg.MintRecipient, DestinationDomain: msg.DestinationDomain, DestinationTokenMessenger: old(st.messengers.addr[msg.DestinationDomain]), DestinationCaller: ""}]
+//@ emits[C06.deposit C05.body C07.emitted C14.emitted] [MessageSent{Message: depositMessage(old(st), msg.From, msg.Amount, msg.DestinationDomain, msg.MintRecipient, msg.BurnToken, "")}, DepositForBurn{Nonce: nextNonceOf(old(st)), BurnToken: hexenc(keccak(lower(msg.BurnToken))), Amount: msg.Amount, Depositor: msg.From, MintRecipient: msg.MintRecipient, DestinationDomain: msg.DestinationDomain, DestinationTokenMessenger: old(st.messengers.addr[msg.DestinationDomain]), DestinationCaller: ""}]
 //@ calls[C05.backed C14.backed C04.others] [BankSend{From: accBytes(msg.From), Module: "cctp", Denom: msg.BurnToken, Amount: msg.Amount.v}, Burn{From: bech32(moduleAddr), Denom: msg.BurnToken, Amount: msg.Amount}]
 //@ modifies[C15.frame C11.frame C12.frame C13.frame C02.frame C07.frame] st.nextNonce
 
@@ -589,7 +592,7 @@ package keeper
 //@ ensures[C14.dep]      depFails(0) || depFails(1) ==> err != nil
 //@ ensures[C05.denom]    err == nil ==> foldEq(mintingDenom(), msg.BurnToken) && msg.Amount.v > 0
 //@ ensures[C07.stamp C06.nonce] err == nil ==> resp.Nonce == nextNonceOf(old(st)) && st.nextNonce.set && st.nextNonce.val == resp.Nonce + 1
-//@ emits[C06.deposit C05.body C07.emitted C14.emitted] [MessageSent{Message: depositMessage(old(st), msg.From, msg.Amount, msg.DestinationDomain, msg.MintRecipient, msg.BurnToken, msg.DestinationCaller)}, DepositForBurn{Nonce: nextNonceOf(old(st)), BurnToken: hexenc(keccak(msg.BurnToken)), Amount: msg.Amount, Depositor: msg.From, MintRecipient: msg.MintRecipient, DestinationDomain: msg.DestinationDomain, DestinationTokenMessenger: old(st.messengers.addr[msg.DestinationDomain]), DestinationCaller: msg.DestinationCaller}]
+//@ emits[C06.deposit C05.body C07.emitted C14.emitted] [MessageSent{Message: depositMessage(old(st), msg.From, msg.Amount, msg.DestinationDomain, msg.MintRecipient, msg.BurnToken, msg.DestinationCaller)}, DepositForBurn{Nonce: nextNonceOf(old(st)), BurnToken: hexenc(keccak(lower(msg.BurnToken))), Amount: msg.Amount, Depositor: msg.From, MintRecipient: msg.MintRecipient, DestinationDomain: msg.DestinationDomain, DestinationTokenMessenger: old(st.messengers.addr[msg.DestinationDomain]), DestinationCaller: msg.DestinationCaller}]
 //@ calls[C05.backed C14.backed C04.others] [BankSend{From: accBytes(msg.From), Module: "cctp", Denom: msg.BurnToken, Amount: msg.Amount.v}, Burn{From: bech32(moduleAddr), Denom: msg.BurnToken, Amount: msg.Amount}]
 //@ modifies[C15.frame C11.frame C12.frame C13.frame C02.frame C07.frame] st.nextNonce
 
@@ -632,7 +635,8 @@ package keeper
 //@ ensures[C09.ok C01.gate] (err == nil) <==> (!bmPausedIn(old(st)) && len(msg.OriginalMessage) == 248 && validBech32(msg.From) && pad32(accBytes(msg.From)) == msg.OriginalMessage[216:248] && msg.NewMintRecipient != zeros(32) && len(msg.NewMintRecipient) == 32 && replaceOK(old(st), msg.OriginalMessage, old(msg.OriginalAttestation), bech32(moduleAddr), zeros(132), msg.NewDestinationCaller) && !emitErr(0) && !emitErr(1))
 //@ ensures[C12.bm]    err == nil ==> !bmPausedIn(old(st)) && !srPausedIn(old(st))
 //@ ensures[C09.module C05.module] err == nil ==> msg.OriginalMessage[20:52] == modulePadded()
-//@ emits[C09.keep C06.replace C07.reuse C05.own] [MessageSent{Message: encMessage(0, 4, u32be(msg.OriginalMessage, 8), u64be(msg.OriginalMessage, 12), msg.OriginalMessage[20:52], msg.OriginalMessage[52:84], msg.NewDestinationCaller, encBurn(u32be(msg.OriginalMessage, 116), msg.OriginalMessage[120:152], msg.NewMintRecipient, u256be(msg.OriginalMessage, 184), msg.OriginalMessage[216:248]))}, DepositForBurn{Nonce: u64be(msg.OriginalMessage, 12), BurnToken: hexenc(keccak(msg.OriginalMessage[120:152])), Amount: u256be(msg.OriginalMessage, 184), Depositor: msg.From, MintRecipient: msg.NewMintRecipient, DestinationDomain: u32be(msg.OriginalMessage, 8), DestinationTokenMessenger: msg.OriginalMessage[52:84], DestinationCaller: msg.NewDestinationCaller}]
+//@ emits[C09.keep C06.replace C07.reuse C05.own] [MessageSent{Message: encMessage(0, 4, u32be(msg.OriginalMessage, 8), u64be(msg.OriginalMessage, 12), msg.OriginalMessage[20:52], msg.OriginalMessage[52:84], msg.NewDestinationCaller, encBurn(u32be(msg.OriginalMessage, 116), msg.OriginalMessage[120:152], msg.NewMintRecipient, u256be(msg.OriginalMessage, 184), msg.OriginalMessage[216:248]))}, DepositForBurn{Nonce: u64be(msg.OriginalMessage, 12), BurnToken: hexenc(msg.OriginalMessage[120:152]), Amount: u256be(msg.OriginalMessage, 184), Depositor: msg.From, MintRecipient: msg.NewMintRecipient, DestinationDomain: u32be(msg.OriginalMessage, 8), DestinationTokenMessenger: msg.OriginalMessage[52:84], DestinationCaller: msg.NewDestinationCaller}]
+//@ ensures[C06.token] err == nil ==> events[1].BurnToken == hexenc(msg.OriginalMessage[120:152])
 //@ calls[C09.inert C04.others C05.others] []
 //@ modifies[C15.frame C09.inert C07.frame C02.frame C11.frame C12.frame C13.frame] none
 
